@@ -21,8 +21,8 @@ var c15CUIDs = []string{"abcdefghijklmnop", "0123456789012345", "1_-AZaz01999999
 
 func init() {
 	core.Register(&core.Prop{
-		ID:          "C15",
-		Level:       "exploration",
+		ID:    "C15",
+		Level: "exploration",
 		Rule: fmt.Sprintf("case 0: exhaustive grid era{0,1} x lamport[0,%d] x delimiter[0,%d] x 3 client ids (one all digits, one starting with a digit): Timestamp.Hash() injective; cases 1-%d: 10^5 random tuples each (lamport < 2^62, delimiter < 2^31, 12 random client ids incl. digit-only) for Hash injectivity, and 2x10^4 random / boundary triples each for the order axioms (irreflexive, antisymmetric, transitive, total; OperationID.Compare == Timestamp.Compare); remaining cases: seeded multi-replica histories with failed calls, failing and committed transactions, batches >= 11 and clocks >= 10 under the identifier monitors (client seq 1,2,3,... without gaps; every new local operation ordered after everything applied; all element identities of the history have pairwise distinct Hash()); ",
 			c15GridLamport, c15GridDelim, c15RandomCases) +
 			"non-trivial = the grid / random cases always; a history if it contains >=1 failed call, >=1 batch >= 11 and a clock >= 10; distinct = hash of the case script",
